@@ -155,7 +155,7 @@ Theorem parsed_wf_normalization u : parsed_wf parse_ip4 ip6_bytes u -> uri_wf u.
 Proof.
   intros (Hc & Hf & Hp & Ha). pose proof (wf_is_host_set u Hf) as Hhs.
   destruct Hc as (_ & Hu & Hh & _ & Hg & Hq & Hfr). destruct Hf as [_ Hf].
-  split; [|split].
+  split; [|split; [|split]].
   - unfold uri_pct_wf, is_regname.
     repeat (apply andb_true_intro; split).
     + destruct (userInfo u); [exact (proj2 Hu)|reflexivity].
@@ -174,6 +174,12 @@ Proof.
     destruct (hostText u); [reflexivity|]. cbn [is_some negb andb].
     destruct (pathSegs u) as [|[|c s] [|s2 r]]; try reflexivity.
     destruct Hp as [Hp _]. exfalso. apply Hp. reflexivity.
+  - unfold ambiguous_path. rewrite Hhs. unfold path_ok in Hp.
+    destruct (hostText u) as [h|].
+    + destruct Hf as [-> _]. cbn [is_some negb]. destruct (pathSegs u) as [|[|? ?] [|[|? ?] ?]]; reflexivity.
+    + cbn [is_some negb].
+      destruct (pathSegs u) as [|[|c s] r]; [destruct (absolutePath u); reflexivity| |destruct (absolutePath u); reflexivity].
+      destruct Hp as [Hp _]. exfalso. apply Hp. reflexivity.
 Qed.
 
 Lemma class_nul_free cls t : cls 0 = false -> forallb cls t = true -> Identity.nul_free t.
